@@ -22,7 +22,10 @@ def noConfigTaskWrites (a : AlgoFacts) : Bool := a.cfgWrites == 0 && a.taskWrite
 
 def numpyRngOnly (a : AlgoFacts) : Bool := a.rngOther == 0
 
-def noLeak (a : AlgoFacts) : Bool := a.leakFields == 0 && a.frameworkFieldWrites == 0
+/-- decided here, not by the translator: every field observable at step entry or read by the initialisation before it writes it is
+(re)initialised per run or a constructor constant -/
+def noLeak (a : AlgoFacts) : Bool :=
+  (a.stepEntryReads ++ a.initReadsBeforeWrite).all (fun f => (a.initWrites ++ a.ctorConst).contains f) && a.frameworkFieldWrites == 0
 
 def uniformApi (a : AlgoFacts) : Bool := a.ctorReadsConfig == 0 && a.setConfigCanonical
 
